@@ -167,6 +167,10 @@ func (a *kAggregate) init(ctx context.Context) error {
 }
 
 func (a *kAggregate) aggregate(t int64, result *[]model.StepVector, k int, SampleIDs []uint64, samples []float64) {
+	if k < 1 {
+		*result = append(*result, a.vectorPool.GetStepVector(t))
+		return
+	}
 	for i, sId := range SampleIDs {
 		h := a.inputToHeap[sId]
 		if h.Len() < k || h.compare(h.entries[0].total, samples[i]) || math.IsNaN(h.entries[0].total) {
